@@ -340,7 +340,9 @@ func (g *progGen) stmt(depth int) {
 		for k2 == name {
 			k2 = Pick(g.r, names)
 		}
-		fmt.Fprintf(&g.sb, "for %s, %s := range []int{%d, %d} {\n_ = %s\n_ = %s\n", name, k2, 10+g.r.Intn(5), 20+g.r.Intn(5), name, k2)
+		// the operand is evaluated before the loop's variables exist: it may mention outer bindings of their names
+		vs := g.visible()
+		fmt.Fprintf(&g.sb, "for %s, %s := range []int{%s + %d, %s + %d} {\n_ = %s\n_ = %s\n", name, k2, Pick(g.r, vs), 10+g.r.Intn(5), Pick(g.r, vs), 20+g.r.Intn(5), name, k2)
 		g.declare(name)
 		g.declare(k2)
 		g.scopes = append(g.scopes, nil)
